@@ -490,6 +490,13 @@ class World:
                 ex.assume(f(cx))
                 ex.assumptions_used.add(f"{nm[6:]} instantiated at the call of {c.qual}")
                 continue
+            root = ex.frames[0].get("contract") if ex.frames else None
+            why = (getattr(root, "assumed_preconditions", None) or {}).get(f"{c.qual}:{nm}")
+            if why:
+                # a precondition that this caller cannot establish itself: it is an obligation on the code that produced the arguments; listed as an assumption
+                ex.assume(f(cx))
+                ex.assumptions_used.add(f"precondition {nm} of {c.qual} assumed at its call in {root.qual}: {why}")
+                continue
             ex.oblige(f"{site}:{nm}", "pre@site", f(cx), note=f"line {ex.cur_line}")
         if c.assumed:
             ex.assumptions_used.add(f"assumed contract of {c.fid}" + (f" ({c.note})" if c.note else ""))
